@@ -197,6 +197,12 @@ func genC03Input(t *rapid.T) ([]byte, int) {
 						f.Name = rapid.SampledFrom(fixtureNames).Draw(t, "fixName")
 						f.File = "@FIX@/" + rapid.SampledFrom([]string{"main.go", "main.go", "broken.go", "missing.go"}).Draw(t, "fixFile")
 						f.Line = rapid.SampledFrom(fixtureLines).Draw(t, "fixLine")
+					} else if oneIn(t, 6, "stdLookalike") {
+						// a path whose tail exists below the local Go root, behind an arbitrary prefix
+						f := &d.Gs[gi].Frames[fi]
+						f.File = rapid.SampledFrom([]string{"/a", "", "/x/y", "/usr/lib/go/src", "/go/src", "/s", "@FIX@"}).Draw(t, "stdPrefix") + "/" +
+							rapid.SampledFrom([]string{"fmt/print.go", "runtime/proc.go", "os/file.go", "net/http/server.go"}).Draw(t, "stdTail")
+						f.Line = rapid.IntRange(1, 200).Draw(t, "stdLine")
 					}
 				}
 			}
